@@ -52,6 +52,23 @@ fn generate(args: &[String]) -> i32 {
     for k in 0..=300u32 {
         out.line(&format!("K {k}"));
     }
+    // ... and the neighbourhood of every multiple of a power of two: a size-to-class mapping that narrows the
+    // byte count or the granule count (u8 / u16 casts, masks) answers like a small request there (seed C12-f1:
+    // `n.div_ceil(8) as u16` pools a request of 524 281 bytes into the 8-byte class)
+    for sh in 8..32u32 {
+        for m in [1u64, 2, 3, 5] {
+            let c = m << sh;
+            for r in -9i64..=264 {
+                let v = c as i64 + r;
+                if (0..=i64::from(u32::MAX)).contains(&v) {
+                    out.line(&format!("K {v}"));
+                }
+            }
+        }
+    }
+    for r in 0..=264u32 {
+        out.line(&format!("K {}", u32::MAX - r));
+    }
     for h in 0..n {
         let len = 1 + rng.below(maxlen);
         if h % 4 != 3 {
@@ -157,6 +174,31 @@ fn generate(args: &[String]) -> i32 {
             }
             out.line(&format!("S {cls}"));
             out.line(&format!("S {}", cls + 1));
+        } else if h % 40 == 31 {
+            // requests just past a multiple of a power of two go to the arena with their full length, pooled
+            // neighbours keep their contents, and the released buffers are never recycled by a class
+            out.line("set");
+            let mut bufno = 0u64;
+            for _ in 0..6 {
+                out.line(&format!("A {}", *rng.pick(BOUNDARY_SIZES)));
+                bufno += 1;
+            }
+            let first = bufno;
+            for sh in [8u32, 9, 12, 16, 19, 20] {
+                let r = rng.range(-7, 257);
+                let v = (1i64 << sh) + r;
+                out.line(&format!("A {v}"));
+                bufno += 1;
+            }
+            for b in first..bufno {
+                out.line(&format!("F {b}"));
+            }
+            for c in [0u32, 1, 15, 16, 19] {
+                out.line(&format!("S {c}"));
+            }
+            for _ in 0..6 {
+                out.line(&format!("A {}", *rng.pick(BOUNDARY_SIZES)));
+            }
         } else if h % 40 == 11 {
             // ownership test around every block boundary and inside the free-list arrays
             let sizes = hooks::slot_sizes();
